@@ -74,6 +74,7 @@ class RunResult:
         self.nontrivial = False
         self.ops = 0
         self.digest = ""
+        self.variant = None    # engine-defined identity of the case (default: scenario hash)
 
     def fault(self, kind, n=1):
         self.faults[kind] = self.faults.get(kind, 0) + n
@@ -91,7 +92,7 @@ class RunResult:
             "states": sorted(self.states), "real": sorted(self.real),
             "stub": sorted(self.stub), "sched": self.sched,
             "sim_time": self.sim_time, "nontrivial": self.nontrivial,
-            "ops": self.ops, "digest": self.digest,
+            "ops": self.ops, "digest": self.digest, "variant": self.variant,
         }
 
 
@@ -501,7 +502,7 @@ def aggregate(prop, tier, verif_seed, records):
         sim_time += s["sim_time"]
         ops += s["ops"]
         if s["nontrivial"]:
-            hashes_nt.add(r["hash"] + ":" + s["sched"].get("trace", ""))
+            hashes_nt.add((s.get("variant") or r["hash"]) + ":" + s["sched"].get("trace", ""))
         if "scenario" in r and len(samples) < 4:
             samples.append(_trim(r["scenario"]))
     from simkit import boot, compat
